@@ -14,6 +14,7 @@
 //        -> m0..m(n-1) | V | a_j mod p_i (all j) | RnsToRing(RingToRns(a_j)) | ck_k (k=1..n-1) | V2 | accessors .. | V3
 //           | digits into an exact-size garbage destination | digits into an oversized destination (first n) | RingToRns(a_last) into an
 //           empty destination | answer of the first call
+//   rnsexc <dom> n p1..pn m d1..dm                   RNSsystem::MixedRadixToRing with m digits on n primes (n = 0: default-constructed)  -> value | EXCEPTION
 //   fixed <hist> <tt> n p1..pn r1..rn                RNSsystemFixed<Integer>, residues in a vector<tt> (or Array0<Integer>: tt = array0)  -> V V2 | levels (size entries)*
 //   cra <dom> <reduce 1|0> M D A e                   ChineseRemainder<IntegerDom,Dom,reduce>  -> res res(copy) res(in place: destination == A)   (constructor arguments changed before use; assignment: c14_craassign.C)
 //   lift <dom> <atonce|prepared|copies> n p.. r..    incremental lifting x_1..x_n by the functor | RNSsystem::RnsToRing
@@ -52,6 +53,7 @@
 #include <recint/recint.h>
 #include "modular-ruint.h"
 #include "modular-log16.h"
+#include "c14_watchdog.h"
 
 using namespace Givaro;
 typedef std::vector<Integer> IV;
@@ -280,6 +282,24 @@ static std::string run_rns(const std::string& hist, const std::string& order, co
     return o.str();
 }
 
+// MixedRadixToRing where the code raises GivError: a system without primes, a digit array of another size than the system
+template <class Dom>
+static std::string run_rnsexc(const IV& P, const IV& Dg) {
+    typedef RNSsystem<Integer, Dom> RNS;
+    typename RNS::domains D(P.size());
+    for (size_t i = 0; i < P.size(); ++i) D[i] = Dom(P[i]);
+    RNS* S = P.empty() ? new RNS() : new RNS(D);
+    typename RNS::array mix(Dg.size());
+    Dom any(P.empty() ? Integer(7) : P[0]);
+    for (size_t i = 0; i < Dg.size(); ++i) (i < P.size() ? D[i] : any).init(mix[i], Dg[i]);
+    Integer V(-3);
+    std::string out;
+    try { S->MixedRadixToRing(V, mix); out = str(V); }
+    catch (GivError&) { out = "EXCEPTION"; }
+    delete S;
+    return out;
+}
+
 // ------------------------------------------------------------------ RNSsystemFixed<Integer>
 typedef RNSsystemFixed<Integer> FX;
 static FX* make_fixed(const IV& P) {     // constructor argument overwritten and freed right after construction
@@ -457,7 +477,9 @@ int main() {
         while (in >> w) t.push_back(w);
         if (t.empty()) continue;
         std::string out = "BAD-LINE";
+        c14_arm();                               // CPU-time budget for this case (c14_watchdog.h)
         try {
+            if (t[0] == "spin") { volatile unsigned long x = 0; for (;;) ++x; }        // self-test of the watchdog (never generated by the check)
             if (t[0] == "maxcard") {
                 std::ostringstream o;
                 if (t[1] == "mdouble") o << Integer(Modular<double>::maxCardinality());
@@ -509,6 +531,17 @@ int main() {
                     else if (sub == "mbd") out = run_rns<ModularBalanced<double> >(hist, order, P, R, a);
                     else out = "BAD-DOM";
                 }
+            } else if (t[0] == "rnsexc") {
+                // rnsexc <dom> n p1..pn m d1..dm : MixedRadixToRing of m digits on a system with n primes (n = 0: default-constructed)
+                const std::string sub = t[1]; size_t k = 2;
+                size_t n = (size_t)atol(t[k++].c_str());
+                IV P; for (size_t i = 0; i < n; ++i) P.push_back(parseI(t[k++]));
+                size_t m = (size_t)atol(t[k++].c_str());
+                IV Dg; for (size_t i = 0; i < m; ++i) Dg.push_back(parseI(t[k++]));
+                if (sub == "mi64") out = run_rnsexc<Modular<int64_t> >(P, Dg);
+                else if (sub == "mint") out = run_rnsexc<Modular<Integer> >(P, Dg);
+                else if (sub == "mdouble") out = run_rnsexc<Modular<double> >(P, Dg);
+                else out = "BAD-DOM";
             } else if (t[0] == "fixed") {
                 const std::string hist = t[1], sub = t[2];
                 size_t n = (size_t)atol(t[3].c_str());
@@ -560,6 +593,7 @@ int main() {
                 else out = "BAD-DOM";
             }
         } catch (...) { out = "EXCEPTION"; }
+        c14_disarm();
         std::cout << out << std::endl;      // flushed per line: a crash loses nothing
     }
     return 0;
